@@ -294,6 +294,42 @@ fn systemtime(acc: &mut Acc) {
     }
 }
 
+/// DateTime -> SystemTime for values built from (seconds, nanosecond field incl. leap): the instant is
+/// UNIX_EPOCH + seconds + field (a leap field lies beyond its second), and the way back gives the same instant
+fn to_systemtime(acc: &mut Acc) {
+    let mut secs: Vec<i64> = vec![0, 1, -1, -2, 59, -59, -60, -61, 86_399, -86_400, 1_700_000_000, -1_700_000_000, 2_147_483_647, -2_147_483_648, 4_294_967_296, -4_294_967_296, 253_402_300_799, -62_167_219_200];
+    for k in 0..40u32 {
+        secs.push(1i64 << k);
+        secs.push(-(1i64 << k));
+        secs.push(-(1i64 << k) - 1);
+    }
+    secs.sort();
+    secs.dedup();
+    for &s in &secs {
+        for n in [0u32, 1, 500_000_000, 999_999_999, 1_000_000_000, 1_500_000_000, 1_999_999_999] {
+            let Some(dt) = DateTime::from_timestamp(s, n) else { continue };
+            let total: i128 = s as i128 * NS + n as i128;
+            let want = if total >= 0 { UNIX_EPOCH.checked_add(Duration::new((total / NS) as u64, (total % NS) as u32)) } else { UNIX_EPOCH.checked_sub(Duration::new(((-total) / NS) as u64, ((-total) % NS) as u32)) };
+            let Some(want) = want else { continue };
+            acc.transitions += 2;
+            let got = guard(|| SystemTime::from(dt));
+            if got != Ok(want) {
+                acc.violation("SystemTime::from(DateTime):value", format!("SystemTime::from(DateTime::from_timestamp({}, {}))", s, n), format!("{:?}", want), format!("{:?}", got));
+                continue;
+            }
+            let back = guard(|| DateTime::<Utc>::from(want));
+            let norm = DateTime::from_timestamp(total.div_euclid(NS) as i64, total.rem_euclid(NS) as u32);
+            if back.as_ref().ok().copied() != norm {
+                acc.violation("DateTime::from(SystemTime):after-leap", format!("DateTime::<Utc>::from(SystemTime::from(DateTime::from_timestamp({}, {})))", s, n), format!("{:?}", norm), format!("{:?}", back));
+            }
+            acc.hit(SYSTIME);
+            if n >= 1_000_000_000 {
+                acc.hit_nt(LEAP);
+            }
+        }
+    }
+}
+
 fn main() {
     install_panic_hook();
     let args = parse_args();
@@ -357,6 +393,7 @@ fn main() {
             acc.sample(|| "unit lattice: e.g. DateTime::from_timestamp_millis(-1) -> 1969-12-31T23:59:59.999Z, read back -1".to_string());
         } else {
             systemtime(acc);
+            to_systemtime(acc);
             acc.traces += 1;
         }
     });
